@@ -152,6 +152,11 @@ def _splice(caller_raw, b, callee_raw):
     if subst:
         for bi in range(boff, boff + len(callee_raw["blocks"])):
             _subst_derefs(caller_raw["blocks"][bi], subst)
+    # a by-value parameter that the callee neither re-assigns nor borrows is just another name for the argument: drop
+    # the debug name so that expression canonicalisation looks through it (`fn base(n) { H + n * 8 }` inlined)
+    for i, a in enumerate(t["args"]):
+        if not _assigned_elsewhere(callee_raw, 1 + i) and not _borrowed(callee_raw, 1 + i):
+            caller_raw["locals"][loff + 1 + i]["name"] = None
     # argument passing
     for i, a in enumerate(t["args"]):
         caller_raw["blocks"][b]["stmts"].append({"s": "assign", "lhs": {"l": loff + 1 + i, "p": []}, "rhs": {"rv": "use", "a": copy.deepcopy(a)},
@@ -182,6 +187,14 @@ def _single_ref_def(raw, l, upto):
             return None
         return copy.deepcopy(pl)
     return None
+
+
+def _borrowed(callee_raw, param):
+    for blk in callee_raw["blocks"]:
+        for st in blk["stmts"]:
+            if st["s"] == "assign" and st["rhs"].get("rv") in ("ref", "addr", "rawptr") and st["rhs"].get("pl", {}).get("l") == param:
+                return True
+    return False
 
 
 def _assigned_elsewhere(callee_raw, param):
